@@ -94,6 +94,26 @@ def spec(pairs, seq, db, els):
     return None
 
 
+def cover_counts(pairs, els):
+    """(k, number of reported strands with k in their interior) for every unpaired nucleotide, from the implementation's elements"""
+    stems, singles, hairpins, loops = els
+    n = len(pairs)
+    cover = [0] * (n + 2)
+    for s in singles:
+        lo = s.strand.first if s.is5p else s.strand.first + 1
+        hi = s.strand.last if s.is3p else s.strand.last - 1
+        for x in range(max(lo, 0), min(hi, n) + 1):
+            cover[x] += 1
+    for h in hairpins:
+        for x in range(h.strand.first + 1, min(h.strand.last, n + 1)):
+            cover[x] += 1
+    for l in loops:
+        for s in l.strands:
+            for x in range(s.first + 1, min(s.last, n + 1)):
+                cover[x] += 1
+    return [(x, cover[x]) for x in range(1, n + 1) if pairs[x - 1] == 0]
+
+
 def run(ctx):
     ctx.coverage["rule"] = ("every pairing on <= N positions (N = 8 quick, 10 thorough) + random nested/knotted layouts up to 300 nt. "
                             "Non-trivial = has >= 1 stem; distinct by pair array; shapes counted (hairpin / bulge-internal / multiloop / knotted).")
@@ -137,6 +157,10 @@ def run(ctx):
         corr_expr.append(f"run_elements {bexpr(seq, pairs)} {lit(db)}")
         corr_exp.append(ev)
         corr_case.append(case)
+        if any(pairs):
+            corr_expr.append(f"run_cover_counts {bexpr(seq, pairs)} {lit(db)}")
+            corr_exp.append([[Nat(x), Nat(c)] for x, c in cover_counts(pairs, els)])
+            corr_case.append(dict(case, compared="times_covered of every unpaired nucleotide"))
         if kind == "layout" and len(ctx.coverage["samples"]) < 3 and els[3]:
             ctx.sample(case)
     if not ctx.model_ok:
